@@ -6,6 +6,7 @@ import (
 	"io"
 	"regexp"
 	"sync"
+	"sync/atomic"
 	"time"
 
 	"github.com/scrapli/scrapligo/logging"
@@ -111,7 +112,7 @@ type Channel struct {
 
 	Q              *util.Queue
 	Errs           chan error
-	readLoopExited bool
+	readLoopExited atomic.Bool
 
 	ChannelLog io.Writer
 }
@@ -196,7 +197,7 @@ func (c *Channel) Close() error {
 
 	simhook.Yield("chan.close.flag")
 
-	if !c.readLoopExited {
+	if !c.readLoopExited.Load() {
 		go func() {
 			defer close(ch)
 
